@@ -119,6 +119,15 @@ theorem retry_always_armed (c : Cfg) (s : St) (hrun : s.running = true)
     omega
 
 open Rain.Announcer in
+/-- Non-vacuity of `retry_always_armed`: a reachable `Contacting` state (after `start`) meets the
+hypotheses, and a foreign cancellation arms the timer 3 units ahead. -/
+example :
+    let c : Cfg := ⟨60, 5, 40⟩
+    let s := (run c (init c) [(0, .start false)]).1
+    s.running = true ∧ s.status = .contacting ∧ (c.boInit ≤ s.boCur ∧ s.boCur ≤ c.boMax) ∧ boAdmissible s.boCur 3 ∧
+    (step c s 7 (.error 0 3)).1.timer = some 10 := by decide
+
+open Rain.Announcer in
 /-- **never_idle.** In every history a running announcer has an announce outstanding
 (`Contacting`) or its timer armed — it is never left with nothing that will wake it — and its
 back-off interval stays within `[InitialInterval, MaxInterval]` (the hypothesis of
@@ -166,6 +175,17 @@ theorem compact_total (b : Bytes) (hb : isBytes b = true) :
   · intro h
     have hl : b.length = 6 * (b.length / 6) := by omega
     exact ⟨_, by simp [decodeCompact, h], compactLoop_length _ b hl, compactLoop_wf _ b hb hl⟩
+
+open Rain.TrackerWire in
+/-- Non-vacuity: 12 bytes decode to two well-formed peers; 11 bytes are an error. -/
+example : decodeCompact [1, 2, 3, 4, 0x1a, 0xe1, 10, 0, 0, 1, 0, 80]
+    = some [{ ip := [1, 2, 3, 4], port := 6881 }, { ip := [10, 0, 0, 1], port := 80 }] ∧
+    decodeCompact [1, 2, 3, 4, 0x1a, 0xe1, 10, 0, 0, 1, 0] = none := by decide
+
+open Rain.TrackerWire in
+/-- Non-vacuity: of three datagrams — too short, foreign id, own id — only the third is taken. -/
+example : firstDelivered 9 [[0, 0, 0, 1, 0, 0, 0], [0, 0, 0, 1, 0, 0, 0, 8, 1], [0, 0, 0, 1, 0, 0, 0, 9, 2]]
+    = some [0, 0, 0, 1, 0, 0, 0, 9, 2] := by decide
 
 open Rain.TrackerWire in
 /-- **udp_reply_match.** A datagram is handed only to the outstanding transaction whose id is in
